@@ -321,6 +321,11 @@ def r3(R):
     # serial branch and threaded branch iterate over the same index set
     serial = [c for c in ast.walk(fn) if isinstance(c, ast.Call) and pyfacts.dotted(c.func) == "run_interp" and c.args]
     todo = [n for n in ast.walk(fn) if isinstance(n, ast.Assign) and isinstance(n.targets[0], ast.Name) and n.targets[0].id == "todo"]
+    if serial and not todo and isinstance(jv, (ast.ListComp, ast.GeneratorExp)) and isinstance(jv.elt, ast.Call) and len(jv.elt.args) == 3:
+        a = src(serial[0].args[0]).replace("list(", "").replace(" ", "").rstrip(")").strip("()")
+        b = "range(%s" % src(jv.elt.args[1]).replace(" ", "")
+        R.check(a == b, "C19.R3", m.rel, serial[0].lineno, "iradon", "serial %s vs threaded stride over %s" % (src(serial[0].args[0]), src(jv.elt.args[1])),
+                "the one-worker path and the threaded path do not cover the same projections")
     if serial and todo:
         a = src(serial[0].args[0]).replace("list(", "").rstrip(")")
         b = src(todo[0].value).replace("list(", "").rstrip(")")
@@ -358,6 +363,11 @@ def partition_verdict(fn, jv):
             if sl.upper is None and sl.lower is not None and sl.step is not None and src(sl.lower) == j and src(sl.step) == W:
                 return True, "stride partition X[j::W], j in range(W)"
             return False, "slice %s is not the stride partition [j::%s]" % (src(e.slice), W)
+        if isinstance(e, ast.Call) and pyfacts.dotted(e.func) == "range" and len(e.args) == 3:
+            lo, hi, st = e.args
+            if src(lo) == j and src(st) == W and j not in [x.id for x in ast.walk(hi) if isinstance(x, ast.Name)]:
+                return True, "stride partition range(j, %s, W), j in range(W)" % src(hi)
+            return False, "range(%s, %s, %s) is not the stride partition range(j, N, %s)" % (src(lo), src(hi), src(st), W)
         if isinstance(e, ast.Call) and pyfacts.dotted(e.func) == "range" and len(e.args) == 2:
             lo, hi = e.args
             # range(j*c, (j+1)*c): exhaustive only if W*c == N, which a floor division does not give
